@@ -115,6 +115,139 @@ theorem batched_eq_unbatched {L : Learner σ V} {f : Option V → Option (List V
     ru = (rb.map dropNoneProb).filter (fun o => !o.isEmpty) :=
   batched_eq_unbatched' ho c n hn env s sb su cb cu rb ru hb hu
 
+/-- batched refinement, call trace: for every batch size `n` (the last batch may be shorter) the model's trace is the
+batched spec's — per batch all predicts (rows in order), then all scores, then all learns, each with the documented
+per-interaction arguments (`specChunk`).  A batch-aware learner gets each phase as one call with `Batch.List`
+arguments, any other learner row by row through SafeLearner's fallback; the row-level sequence is the same. -/
+theorem trace_eq_spec_batched (c : Config) (L : Learner σ V) (n : Nat) (first : Dict (Fld V R)) (rest : List (Dict (Fld V R)))
+    (s : σ) (H : Hyp c L first rest) :
+    ((evaluate c L (some n) (first :: rest) s).toOpt).map (fun r => (r.1, r.2.1)) =
+      (specRunB c (mkFlags first) L s ((chunks n (first :: rest)).map (List.map view))).map (fun r => (r.1, r.2.1)) := by
+  rw [evaluate_refines_batched' c L n first rest s H.wf H.valid H.seq]; simp [Function.comp_def]
+
+/-- batched refinement, rows: one row per interaction in environment order (`rowSB`: as `rowS`, with the
+`probability` cell written whenever a prediction was made), empty rows not emitted -/
+theorem rows_eq_spec_batched (c : Config) (L : Learner σ V) (n : Nat) (first : Dict (Fld V R)) (rest : List (Dict (Fld V R)))
+    (s : σ) (H : Hyp c L first rest) :
+    ((evaluate c L (some n) (first :: rest) s).toOpt).map (fun r => r.2.2) =
+      (specRunB c (mkFlags first) L s ((chunks n (first :: rest)).map (List.map view))).map
+        (fun r => r.2.2.filter (fun o => !o.isEmpty)) := by
+  rw [evaluate_refines_batched' c L n first rest s H.wf H.valid H.seq]; simp [Function.comp_def]
+
+/-- what a history-dependent learner sees differently in a batch (1): the calls of one batch are its predicts, then
+its scores, then its learns, and the batch is learned from the state reached after ALL its predictions/scores -/
+theorem batched_calls_shape (c : Config) (fl : Flags) (L : Learner σ V) (s : σ) (vs : List (View V R))
+    (r : σ × List (Call V) × List (Row V R)) (h : specChunk c fl L s vs = some r) :
+    ∃ args, ((c.learn = .none ∧ args = []) ∨ (c.learn ≠ .none ∧
+        allSome (List.zipWith (learnArgsS c) vs
+          (if needPred c L.hasScore then (predictS L s vs).2.map some else vs.map (fun _ => none))) = some args)) ∧
+      r.1 = learnS L
+        (if (c.eval == .ips && L.hasScore && !needPred c L.hasScore) then
+            (scoreS L (if needPred c L.hasScore then (predictS L s vs).1 else s) vs).1
+          else (if needPred c L.hasScore then (predictS L s vs).1 else s)) vs args
+      ∧ r.2.1 = (if needPred c L.hasScore then vs.map (fun v => Call.predict v.ctx v.acts) else [])
+          ++ (if (c.eval == .ips && L.hasScore && !needPred c L.hasScore) then vs.map (fun v => Call.score v.ctx v.acts v.offAct) else [])
+          ++ List.zipWith (fun (v : View V R) a => Call.learn v.ctx a.1 a.2.1 a.2.2.1 a.2.2.2) vs args :=
+  specChunk_state L s vs r h
+
+/-- what a history-dependent learner sees differently in a batch (2): row j of a batch is predicted in the state
+reached by predicting rows 0..j-1 of that batch — none of the batch has been learned yet -/
+theorem batched_row_predicted_before_learning (L : Learner σ V) (s : σ) (vs : List (View V R)) (j : Nat) (h : j < vs.length) :
+    (predictS L s vs).2[j]? = some (L.predict (predictS L s (vs.take j)).1 (vs[j]).ctx (vs[j]).acts).2 :=
+  predictS_get L s vs j h
+
+/-- for a history-independent learner the batched run makes exactly the calls of the un-batched run — the same
+predicts, the same scores, the same learns, each kind in the same order; only the interleaving differs -/
+theorem batched_trace_eq_unbatched {L : Learner σ V} {f : Option V → Option (List V) → Pred V}
+    {g : Option V → Option (List V) → Option V → Rat} (ho : Oblivious L f g) (c : Config) (n : Nat) (hn : 0 < n)
+    (first : Dict (Fld V R)) (rest : List (Dict (Fld V R))) (s sb su : σ) (cb cu : List (Call V)) (rb ru : List (Row V R))
+    (H : Hyp c L first rest)
+    (hb : evaluate c L (some n) (first :: rest) s = .ok (sb, cb, rb))
+    (hu : evaluate c L none (first :: rest) s = .ok (su, cu, ru)) :
+    cb.filter Call.isPredict = cu.filter Call.isPredict ∧ cb.filter Call.isScore = cu.filter Call.isScore
+      ∧ cb.filter Call.isLearn = cu.filter Call.isLearn :=
+  batched_trace_eq_unbatched' ho c n hn first rest s sb su cb cu rb ru H hb hu
+
+/-- several evaluations with the same learner object: the k-th outcome is `evaluate` of the k-th config/environment
+started in the learner state the earlier evaluations left (`finalState`); the evaluator and the SafeLearner wrapper
+carry nothing over (this is what the harness replays with the `s0` request field) -/
+theorem evaluations_independent (L : Learner σ V) (s : σ) (pre : List (Episode V R)) (e : Episode V R) (post : List (Episode V R)) :
+    (runHistory L s (pre ++ e :: post))[pre.length]? = some (evaluate e.cfg L e.bs e.env (finalState L s pre)) :=
+  evaluations_independent' L s pre e post
+
+/-- … hence histories that leave the learner in the same state are followed by the same outcome -/
+theorem history_congr (L : Learner σ V) (s₁ s₂ : σ) (pre₁ pre₂ : List (Episode V R)) (e : Episode V R)
+    (post₁ post₂ : List (Episode V R)) (h : finalState L s₁ pre₁ = finalState L s₂ pre₂) :
+    (runHistory L s₁ (pre₁ ++ e :: post₁))[pre₁.length]? = (runHistory L s₂ (pre₂ ++ e :: post₂))[pre₂.length]? :=
+  history_congr' L s₁ s₂ pre₁ pre₂ e post₁ post₂ h
+
+/-- the documented IPS transform with exact rationals: `reward/probability` at the logged action, `0` elsewhere, for
+every non-zero probability however small -/
+theorem ips_reward_spec (v : View V R) (a : Option V) (r p : Rat) (hr : v.offRwd = some r) (hp : v.offPr = some p) (hp0 : p ≠ 0) :
+    ipsReward v a = some (if v.offAct = a then r / p else 0) :=
+  ips_reward_spec' v a r p hr hp hp0
+
+/-- no clipping: the importance-weighted value times the propensity is the logged reward -/
+theorem ips_reward_unclipped (v : View V R) (r p : Rat) (hr : v.offRwd = some r) (hp : v.offPr = some p) (hp0 : p ≠ 0) :
+    ∃ w, ipsReward v v.offAct = some w ∧ w * p = r :=
+  ips_reward_unclipped' v r p hr hp hp0
+
+/-- score-based IPS evaluation (eval='ips', learner with `score`, no prediction needed): every interaction asks
+`score(context, actions, logged action)` first and its row records `score · reward/probability` -/
+theorem score_based_ips (c : Config) (L : Learner σ V) (first : Dict (Fld V R)) (rest : List (Dict (Fld V R)))
+    (s s' : σ) (calls : List (Call V)) (rows : List (Row V R)) (H : Hyp c L first rest)
+    (he : c.eval = .ips) (hs : L.hasScore = true) (hnp : needPred c L.hasScore = false) (hrec : c.rcd "reward" = true)
+    (h : evaluate c L none (first :: rest) s = .ok (s', calls, rows)) :
+    ∃ steps : List (σ × List (Call V) × Row V R), steps.length = (first :: rest).length ∧
+      calls = (steps.map (·.2.1)).flatten ∧ rows = (steps.map (·.2.2)).filter (fun o => !o.isEmpty) ∧
+      ∀ vst ∈ ((first :: rest).map view).zip steps,
+        vst.2.2.1.head? = some (Call.score vst.1.ctx vst.1.acts vst.1.offAct) ∧
+        ∃ w, ipsReward vst.1 vst.1.offAct = some w ∧
+          ("reward", Cell.num (some ((L.score vst.2.1 vst.1.ctx vst.1.acts vst.1.offAct).2 * w))) ∈ vst.2.2.2 :=
+  score_based_ips' c L first rest s s' calls rows H he hs hnp hrec h
+
+/-- `CobaContext.learning_info` (un-batched): what a learner writes there does not change the evaluation — state,
+calls and rows-before-merging are those of `evaluate` for the same learner (no hypotheses) -/
+theorem info_does_not_change_evaluation (c : Config) (L : InfoLearner σ V) (env : List (Dict (Fld V R))) (s : σ) :
+    evaluate c L.toLearner none env s = (match evaluateI c L env s with
+      | .ok r => .ok (r.1, r.2.1, r.2.2.2.1.filter (fun o => !o.isEmpty))
+      | .rejected ks => .rejected ks
+      | .crashed e => .crashed e) :=
+  evaluateI_base' c L env s
+
+/-- `learning_info` is local to its interaction: the yielded rows are `zipWith mergeInfo bases infos` (empty ones
+dropped) where `bases[i]` is the row interaction i has anyway and `infos[i] = Pass.info` of pass i — what `predict`
+wrote during that pass `update`d by what `learn` wrote during that pass, functions of that pass's learner state and
+call arguments only.  The info of interaction i therefore appears in row i and in no other row. -/
+theorem info_row_local (c : Config) (L : InfoLearner σ V) (first : Dict (Fld V R)) (rest : List (Dict (Fld V R)))
+    (s s' : σ) (calls : List (Call V)) (rows bases : List (Row V R)) (infos : List (Dict V))
+    (h : evaluateI c L (first :: rest) s = .ok (s', calls, rows, bases, infos)) :
+    rows = (List.zipWith mergeInfo bases infos).filter (fun o => !o.isEmpty) ∧
+    evaluate c L.toLearner none (first :: rest) s = .ok (s', calls, bases.filter (fun o => !o.isEmpty)) ∧
+    ∃ passes : List (Pass σ V R), passes.length = (first :: rest).length ∧ bases = passes.map (·.out) ∧
+      infos = passes.map (Pass.info c L) ∧
+      ∀ dk ∈ (first :: rest).zip passes, passOf c (mkFlags first) L.toLearner dk.2.s0 dk.1 = .ok dk.2 :=
+  info_row_local' c L first rest s s' calls rows bases infos h
+
+/-- PMF answers: for a learner that answers with a PMF (`wrapPmf`: SafeLearner draws the action with its own
+generator, C05's `choicew`), on-policy evaluation feeds back exactly the parsed answer — the drawn action, its weight
+as the probability, the learner's kwargs — and nothing else -/
+theorem pmf_answers_recorded_as_parsed (c : Config) (P : PmfLearner σ V) (dflt : V) (first : Dict (Fld V R))
+    (rest : List (Dict (Fld V R))) (s s' : σ × Nat) (calls : List (Call V)) (rows : List (Row V R))
+    (H : Hyp c (wrapPmf P dflt) first rest) (hl : c.learn = .on ∨ c.learn = .ips)
+    (h : evaluate c (wrapPmf P dflt) none (first :: rest) s = .ok (s', calls, rows)) :
+    ∃ steps : List ((σ × Nat) × List (Call V)), steps.length = (first :: rest).length ∧ calls = (steps.map (·.2)).flatten ∧
+      ∀ vst ∈ ((first :: rest).map view).zip steps,
+        ∃ rew, vst.2.2 = [Call.predict vst.1.ctx vst.1.acts,
+          Call.learn vst.1.ctx
+            (some (parsePmf dflt vst.1.acts (P.predict vst.2.1.1 vst.1.ctx vst.1.acts).2.1
+              (P.predict vst.2.1.1 vst.1.ctx vst.1.acts).2.2 vst.2.1.2).1.action)
+            (some rew)
+            (parsePmf dflt vst.1.acts (P.predict vst.2.1.1 vst.1.ctx vst.1.acts).2.1
+              (P.predict vst.2.1.1 vst.1.ctx vst.1.acts).2.2 vst.2.1.2).1.prob
+            (P.predict vst.2.1.1 vst.1.ctx vst.1.acts).2.2] :=
+  pmf_parsed' c P dflt first rest s s' calls rows H hl h
+
 /-- validation (all environments, batched or not, no hypotheses): `evaluate` rejects up-front — before the
 learner is touched — iff a key the code requires (`required` = `_required`) is missing from the first interaction -/
 theorem validate_iff_missing (c : Config) (L : Learner σ V) (bs : Option Nat) (env : List (Dict (Fld V R))) (s : σ) :
